@@ -177,7 +177,7 @@ def build_sampled(c, cls=None):
 # how the object under test reached the caller: freshly constructed, restored from a file,
 # received from another process (pickle), a full-range selection, or a copy.  The statements
 # about containers hold for all of them alike.
-PROVENANCE = [None, None, None, None, "hdf5", "hdf5", "pickle", "slice", "copy"]
+PROVENANCE = [None, None, None, None, "hdf5", "hdf5", "pickle", "slice", "pslice", "copy"]
 
 
 def via(obj, how):
@@ -194,6 +194,8 @@ def via(obj, how):
         return copy.deepcopy(obj)
     if how == "slice":
         return obj.bins[:]
+    if how == "pslice":
+        return obj.patches[:] if hasattr(obj, "patches") else obj.bins[:]
     if how == "hdf5":
         import os
         import tempfile
